@@ -413,6 +413,19 @@ def _check_context_state(prog: Program, L: Ledger, d: ClassInfo) -> None:
             L.violation("T4", f"{d.name}:{ctxc.name}.{s}", ctxc.where,
                         f"context slot `{s}` of {ctxc.name} is neither emitted by to_dict, nor a handle, nor reset per trial, nor recomputed by {d.name}.validate_simulation",
                         f"a run resumed from the restart file uses the constructor default of `{s}`", s)
+    # the value written under a slot's key is that slot (read directly, through a property forwarding to it, or through
+    # a lossless wrapper such as .copy() / np.asarray / float): anything computed from OTHER state is a different quantity
+    for k, val in cs.items.items():
+        if k not in slots or not isinstance(val, EV):
+            continue
+        roots = set()
+        for n_ in ast.walk(val.expr):
+            if isinstance(n_, ast.Attribute) and isinstance(n_.value, ast.Name) and n_.value.id == "self":
+                roots.add(n_.attr)
+        accepted = {k, "_" + k, k.lstrip("_")}
+        L.check(bool(roots) and roots <= accepted, "T4", f"{d.name}:{ctxc.name}.to_dict[{k}]:value", f"{val.func.module.relpath}:{val.expr.lineno}",
+                f"context dictionary key {k!r} is written from `{norm(val.expr)[:80]}`, not from the slot `{k}` the simulation reads: after a restart the slot holds a different quantity",
+                f"a run whose `{k}` differs from `{norm(val.expr)[:60]}` (set through its setter, or drifted during the run) resumes with another value: the remaining trajectory diverges", norm(val.expr)[:100])
     for k in cs.items:
         L.check(k in slots, "T4", f"{d.name}:{ctxc.name}.to_dict[{k}]", ctxc.where,
                 f"context dictionary key {k!r} is not a slot of {ctxc.name}", f"{d.name}.from_dict -> AttributeError in the context setattr loop", k)
